@@ -2,16 +2,21 @@
 
 pub mod c12;
 pub mod c13;
+pub mod c14;
+pub mod c15;
+pub mod c16;
 pub mod treemodel;
 
 use crate::known::Known;
 use crate::PropDef;
 
 pub fn registry() -> &'static [PropDef] {
-    &REGISTRY
+    static R: std::sync::OnceLock<Vec<PropDef>> = std::sync::OnceLock::new();
+    R.get_or_init(build_registry)
 }
 
-static REGISTRY: [PropDef; 2] = [
+fn build_registry() -> Vec<PropDef> {
+    vec![
     PropDef {
         id: "C12",
         level: "exploration",
@@ -36,10 +41,50 @@ static REGISTRY: [PropDef; 2] = [
         watchdog_thorough: 1500,
         exhaustive_note: Some("every node of every generated tree is used as start node (complete per tree)"),
     },
-];
+    PropDef {
+        id: "C16",
+        level: "exploration",
+        cases_quick: 20_000,
+        cases_thorough: 2_000_000,
+        run_case: c16::run_case,
+        rule: "one case = random affine functions f: R^n->R^m, g: R^k->R^n, f2 (dims 1..5; regimes int / dyadic / short-float / full-float) and inputs; checked: apply, compose (coefficients and the identity compose(f,g)(x)=f(g(x)) in exact rationals), stack, + - * / % in six ownership forms each (bit-equal to the IEEE operator applied coefficient-wise, point-wise for + and -), negation in four forms, apply_transpose, row/row_iter/remove_rows/from_row_iter, view/owned/polytope conversions, remove_zero_rows/columns, convert_to under all four PolyRepr (sign condition iff membership, incl. boundary points) and all 13 named constructors against their doc sentence. Non-trivial = n >= 2 and m >= 2; distinct = hash of regime and all coefficients.",
+        assumptions: &["coefficients are normal floats (from_mats debug-asserts this); divisors for / and % are non-zero", "remove_zero_columns is only called with at least one non-zero column"],
+        watchdog_quick: 240,
+        watchdog_thorough: 1500,
+        exhaustive_note: None,
+    },
+    PropDef {
+        id: "C14",
+        level: "exploration",
+        cases_quick: 6_000,
+        cases_thorough: 600_000,
+        run_case: c14::run_case,
+        rule: "one case = random polytopes P, P2 in R^n (n in 1..5, int/dyadic rows, asymmetric biases, occasional zero rows and empty sets), translation vector, affine map R^k->R^n, unimodular integer matrix with exact inverse, signed permutation and 3-4-5 rotation; every operation and constructor (intersection, intersection_n incl. empty list, translate, apply_pre, apply_post, rotate, hypercube, hyperrectangle, axis_bounds with +-inf, unbounded, empty, cross_polytope, from_normal, simplex, distance) is checked on ~100 lattice / half-lattice / exactly-on-boundary points: exact membership of the pre-image vs exact membership in the result rows vs the library's contains(). Non-trivial = the translation is non-zero on a polytope with non-zero bias or the hyperrectangle is asymmetric about the origin (so sign/transposition slips cannot cancel); distinct = hash of P and P2.",
+        assumptions: &["exact regime: coefficients are small integers / dyadics so that slack is 0 or far above contains()' 1e-8 tolerance", "distance() is compared only on non-zero rows and on all-space rows (0 <= positive)"],
+        watchdog_quick: 240,
+        watchdog_thorough: 1500,
+        exhaustive_note: None,
+    },
+    PropDef {
+        id: "C15",
+        level: "exploration",
+        cases_quick: 3_000,
+        cases_thorough: 300_000,
+        run_case: c15::run_case,
+        rule: "one case = one constraint system in R^n (n in 1..4, up to 12 rows) assembled from random base rows plus exact duplicates, positively scaled twins, negatively scaled twins (equality pairs), parallel rows with looser/tighter bias, zero rows with positive/zero/negative bias and contradictions; remove_tautologies, remove_duplicate_rows, remove_zero_rows, normalize, remove_rows (arbitrary index sets and oracle-proved redundant sets) and remove_redundant_row_constraints are each checked for: result is an order-preserving subsequence of the original rows (or the canonical empty/all-space form where the property allows it), exact two-way set inclusion with the input (certified simplex), and for the redundancy remover that no surviving row is implied by the other survivors by a margin 1e-6(1+|b|). Non-trivial = an operation dropped at least one row or the system contains a near-miss (negatively scaled twin, parallel row with different bias); distinct = hash of all coefficients.",
+        assumptions: &["rows are exact multiples or clearly different (no rows that differ by a few ulps, which remove_duplicate_rows treats as equal by design)", "normalize is compared up to f64 rounding of the scaling and on points at least 1e-9 away from the boundary"],
+        watchdog_quick: 300,
+        watchdog_thorough: 1800,
+        exhaustive_note: None,
+    },
+    ]
+}
 
-pub fn check_known_witness(_prop: &str, _k: &Known) -> Result<bool, String> {
-    Err("no witness executor for this property".into())
+pub fn check_known_witness(prop: &str, k: &Known) -> Result<bool, String> {
+    match (prop, k.key.as_str()) {
+        ("C15", c15::K1_KEY) => c15::k1_witness(&k.witness),
+        _ => Err("no witness executor for this property/key".into()),
+    }
 }
 
 pub fn selftest() -> Result<usize, String> {
